@@ -361,6 +361,7 @@ class Union():
                     'n_sample', 'n_reject']:
             group.attrs[key] = getattr(self, key)
 
+        group.attrs['block'] = self.block
         group.attrs['unit'] = self.cube is not None
         if self.cube is not None:
             self.cube.write(group.create_group('cube'))
@@ -432,6 +433,13 @@ class Union():
         bound.points_bounds = [np.array(group['points_bound_{}'.format(i)]) for
                                i in range(len(bound.log_v_all))]
         bound.points = np.array(group['points'])
+        if 'block' in group.attrs:
+            bound.block = np.array(group.attrs['block'], dtype=bool)
+        else:
+            # Files written by earlier versions do not have this information.
+            bound.block = np.array([
+                len(points) < 2 * bound.n_points_min for points in
+                bound.points_bounds])
 
         return bound
 
